@@ -335,6 +335,14 @@ static int meta_op(int nt, char **tok) {
     }
     free(names); tail(); return 1;
   }
+  if (!strcmp(op, "names") && nt >= 4) {
+    /* names <parent|-> <type> <flags> : gd_entry_list verbatim */
+    const char *par = strcmp(tok[1], "-") ? tok[1] : NULL;
+    const char **l = gd_entry_list(D, par, atoi(tok[2]), strtoul(tok[3], NULL, 0));
+    fputs("names", stdout);
+    for (unsigned i = 0; l && l[i]; i++) printf(" %s", l[i]);
+    tail(); return 1;
+  }
   if (!strcmp(op, "etable")) {
     /* D->entry[] in table order, names in hex (internal invariant of the bisection) */
     fputs("etable", stdout);
